@@ -391,6 +391,11 @@ example :
     let s := (step (run (AState.init 1) [.init 100000 1200 0 1000 (some (7, 0)), .conf 0 1003]) (.restart true none)).1
     s.w.spendRegs.map (·.op) = [⟨7, 0⟩] ∧ s.w.expiry = some 1200 := by decide
 
+/-- every site that can change the expiry an open account is tracked under has to re-register it: `RenewAccount`
+does (regenerated call list); `handleStateOpen` does after every confirmation (see `C08_I2_resume_adequate`) -/
+theorem C08_renew_rearms_expiry : Lifecycle.renewAccountCalls.contains "WatchAccountExpiration" = true := by
+  decide
+
 /-! ## I3 — the store write precedes the publication -/
 
 /-- what the scan `chk` means: wherever a `publish t` occurs in the trace, an earlier effect is the store
